@@ -117,7 +117,12 @@ class Interp:
             left = self.ev(node.left)
             for op, comp in zip(node.ops, node.comparators):
                 right = self.ev(comp)
-                if not self.compare(left, op, right, node):
+                res = self.compare(left, op, right, node)
+                if getattr(res, "free_symbols", None):
+                    if len(node.ops) == 1:
+                        return res  # a symbolic relation: undetermined (explored both ways in fork mode)
+                    raise AnalysisError(f"guard language: comparison on undetermined value in {U(node)!r} (symbolic chain)")
+                if not res:
                     return False
                 left = right
             return True
@@ -201,6 +206,8 @@ class Interp:
     def truth(self, val, node):
         if isinstance(val, Unknown):
             raise AnalysisError(f"guard language: decision on undetermined value {U(node)!r} ({val.why})")
+        if getattr(val, "free_symbols", None):
+            raise AnalysisError(f"guard language: decision on undetermined value {U(node)!r} (symbolic)")
         return bool(val)
 
     def compare(self, left, op, right, node):
@@ -485,7 +492,7 @@ class ForkInterp(Interp):
         if isinstance(st, ast.If):
             try:
                 val = self.ev(st.test)
-                if isinstance(val, Unknown):
+                if isinstance(val, Unknown) or getattr(val, "free_symbols", None):
                     raise AnalysisError("undetermined")
                 dec = bool(val)
             except AnalysisError as exc:
